@@ -17,7 +17,7 @@
 //! * `/`, `checked_div`, `div_rounded` (dividend scale <= n + divisor scale),
 //!   `quantize` (= `div_rounded(q, 0) * q`, same two branches): the divisor (quantum) is a multiple of a prime p in 3..23 and
 //!   the dividend is not, so the quotient never terminates (is no integer); or
-//!   (Decimal / Decimal routes, one time in four or five) the divisor is 2^k or
+//!   (Decimal / Decimal and Decimal / integer routes, one time in four or five) the divisor is 2^k or
 //!   5^k and the dividend coprime to it, with k larger than the number of
 //!   digits the scales and the precision leave room for - the quotient
 //!   terminates, but later than where it is rounded;
@@ -122,6 +122,22 @@ fn late_terminating(rng: &mut Rng, min_k: i64, max_d: u32) -> Option<(i128, i128
     let a = coeff(rng, max_d);
     let a = if base == 2 { a | 1 } else { not_multiple(a, 5) };
     Some((a, base.pow(k as u32)))
+}
+
+/// An integer divisor 2^k, k > `min_k`, in an integer type that holds it
+/// (late-terminating quotients on the Decimal / integer routes).
+fn pow2_int(rng: &mut Rng, min_k: i64) -> Option<(IntTy, i128)> {
+    if min_k + 1 > 100 {
+        return None;
+    }
+    let k = rng.range(min_k + 1, (min_k + 1 + 30).min(100));
+    let v = 1i128 << k;
+    let c: Vec<IntTy> = INT_TYS.iter().copied().filter(|t| t.fits(v)).collect();
+    if c.is_empty() {
+        None
+    } else {
+        Some((*rng.pick(&c), v))
+    }
 }
 
 fn coeff(rng: &mut Rng, max_d: u32) -> i128 {
@@ -281,7 +297,14 @@ pub fn probe_op(idx: u64) -> (usize, Op) {
             let k = int_val(&mut rng, ty, 36) / p;
             let v = isign(ty, (k.max(1)) * p, &mut rng);
             let v = if ty.fits(v) { v } else { p };
-            let a = sign(not_multiple(coeff(&mut rng, 36), p), &mut rng);
+            let a = not_multiple(coeff(&mut rng, 36), p);
+            // `/` keeps 18 fractional digits
+            let lt = if rng.pct(25) { pow2_int(&mut rng, (18 - sa as i64).max(0)) } else { None };
+            let (ty, v, a) = match lt {
+                Some((t, w)) => (t, isign(t, w, &mut rng), a | 1),
+                None => (ty, v, a),
+            };
+            let a = sign(a, &mut rng);
             if route == 7 {
                 Op::DivDI { a: (a, sa), i: Int { ty, v }, form: form5 }
             } else {
@@ -335,7 +358,13 @@ pub fn probe_op(idx: u64) -> (usize, Op) {
             let k = int_val(&mut rng, ty, 36) / p;
             let v = isign(ty, k.max(1) * p, &mut rng);
             let v = if ty.fits(v) { v } else { p };
-            let a = sign(not_multiple(coeff(&mut rng, 36), p), &mut rng);
+            let a = not_multiple(coeff(&mut rng, 36), p);
+            let lt = if rng.pct(20) { pow2_int(&mut rng, n as i64 - sa as i64) } else { None };
+            let (ty, v, a) = match lt {
+                Some((t, w)) => (t, isign(t, w, &mut rng), a | 1),
+                None => (ty, v, a),
+            };
+            let a = sign(a, &mut rng);
             Op::DivRoundedDI { a: (a, sa), i: Int { ty, v }, n, form: form4 }
         }
         14 => {
